@@ -269,6 +269,67 @@ def main(argv=None):
                 else:
                     violations.append((mod, un, o))
 
+    # ---------------------------------------------------------------- direct contract modules
+    # Obligations that are not produced by the symbolic executor (regular-language inclusions, pyvc/reglang.py): the
+    # module generates them from the tree under check, discharges them itself and replays every counter-example natively.
+    direct_units = 0
+    if not a.unit or any(re.search(a.unit, "%s/direct/%s" % (pid, dm)) for dm in spec.get("direct", [])):
+        for dm in spec.get("direct", []):
+            try:
+                if sys.path[0] != runner.REPO:
+                    sys.path.insert(0, runner.REPO)
+                if VERIF not in sys.path:
+                    sys.path.insert(1, VERIF)
+                dmod = importlib.import_module(dm)
+                import architecture_simulator as _as
+                if not os.path.realpath(_as.__file__).startswith(os.path.realpath(runner.REPO) + os.sep):
+                    raise RuntimeError("direct module would read %s, not the tree under check (%s)" % (_as.__file__, runner.REPO))
+                info = dmod.run(tier, seed, timeout_ms)
+            except Exception:
+                import traceback
+                crashes.append(("direct:" + dm, traceback.format_exc()[-2000:]))
+                continue
+            if info.get("crash"):
+                crashes.append(("direct:" + dm, info["crash"]))
+                continue
+            direct_units += info.get("units", 0)
+            functions.update(info.get("functions", []))
+            real = [o for o in info["obligations"] if not o.get("canary") and not o.get("bounded")]
+            if not real:
+                crashes.append(("direct:" + dm, "zero obligations (vacuous)"))
+            for o in info["obligations"]:
+                solver_s += o.get("seconds", 0.0)
+                if o.get("canary"):
+                    if o["status"] == "refuted" and (o.get("replay") or {}).get("confirmed"):
+                        canaries_refuted += 1
+                    elif o["status"] in ("proved", "refuted"):
+                        crashes.append((o["name"], "canary was not refuted and replayed: the checker would not notice a broken contract"))
+                    else:
+                        undecided.append((o["name"], "canary left undecided by the solver"))
+                    continue
+                if o.get("bounded"):
+                    n_bounded_ob += 1
+                    continue
+                n_ob += 1
+                if o["status"] == "proved":
+                    n_dis += 1
+                    by_backend[o["backend"]] = by_backend.get(o["backend"], 0) + 1
+                    if o["backend"] != "structural" and sum(1 for x in samples if x.get("backend", "").startswith("z3-seq")) < 2:
+                        samples.append({"obligation": o["name"], "backend": o["backend"], "verdict": "proved", "seconds": round(o["seconds"], 4)})
+                elif o["status"] == "refuted":
+                    if (o.get("replay") or {}).get("confirmed"):
+                        v = {"key": o["name"], "obligation": o["name"], "witness": o.get("witness"), "solver": {"backend": o["backend"], "verdict": "refuted", "seconds": o["seconds"]},
+                             "native_replay": o["replay"], "what": o.get("reason", "")}
+                        k = known_match(known, pid, dm, o["name"])
+                        if k is not None:
+                            known_hits.append((k, o["name"]))
+                        else:
+                            violations.append(("bounded", dm, v))
+                    else:
+                        gaps.append((o["name"], "counter-example %r does not replay natively: %s" % (o.get("witness"), o.get("reason", ""))))
+                else:
+                    undecided.append((o["name"], o.get("reason") or "solver unknown"))
+
     # ---------------------------------------------------------------- bounded stand-ins / extra native parts
     bounded_info = None
     if spec.get("bounded") and not a.unit:
@@ -350,7 +411,7 @@ def main(argv=None):
         "discharged": n_dis,
         "checker_cmd": "./check %s --tier %s" % (pid, tier),
         "trusted_base": spec.get("trusted_base", []) + ["z3 %s" % _z3v(), "CPython 3.12 ast module", "pyvc symbolic executor (A-ENGINE)"],
-        "units": len(jobs),
+        "units": len(jobs) + direct_units,
         "paths": paths,
         "by_backend": by_backend,
         "solver_s": round(solver_s, 3),
@@ -393,7 +454,7 @@ def main(argv=None):
         with open(os.path.join(VERIF, "evidence", pid + ".json"), "w") as f:
             json.dump(ev, f, indent=1, default=str)
     print("%s tier=%s units=%d paths=%d obligations=%d discharged=%d undecided=%d gaps=%d known=%d violations=%d wall=%.1fs"
-          % (pid, tier, len(jobs), paths, n_ob, n_dis, len(undecided) + len(unmodelled), len(gaps), len(printed_known), len(violations), wall))
+          % (pid, tier, len(jobs) + direct_units, paths, n_ob, n_dis, len(undecided) + len(unmodelled), len(gaps), len(printed_known), len(violations), wall))
     return rc
 
 
